@@ -9,6 +9,7 @@ PROP = {
     "id": "C20",
     "harness": "c20",
     "driver": "c20",
+    "tie2": ["Tie2Secs1Asm"],
     "n_quick": 40,
     "n_thorough": 1500,
     "harness_timeout": 1500,
